@@ -746,7 +746,7 @@ int
 protocols_verif(signature_t *sig, const public_key_t *pk, const unsigned char *m, size_t l)
 {
 
-    int verif;
+    int verif = 0;
     ibz_t tmp, tmp2, remain;
     ibz_vec_2_t vec_chall, check_vec_chall;
     ibz_mat_2x2_t mat;
@@ -867,6 +867,10 @@ protocols_verif(signature_t *sig, const public_key_t *pk, const unsigned char *m
 
     assert(test_point_order_twof(&phi_chall.kernel, &Echall, phi_chall.length));
     VERIF_TAP("small_ker", &phi_chall.kernel, phi_chall.length);
+    // the kernel of the challenge isogeny must have order exactly 2^phi_chall.length
+    if (!test_point_order_twof(&phi_chall.kernel, &Echall, phi_chall.length)) {
+        goto cleanup;
+    }
     ec_eval_even(&Echall, &phi_chall, points, 3);
     VERIF_TAP("E_chall", &Echall, phi_chall.length);
 
@@ -945,10 +949,22 @@ protocols_verif(signature_t *sig, const public_key_t *pk, const unsigned char *m
     VERIF_TAP("T2", &T2, pow_dim2_deg_resp);
     VERIF_TAP("T1m2", &T1m2, pow_dim2_deg_resp);
 
+    // the kernel of the (2,2)-isogeny chain must be generated by points of order exactly
+    // 2^pow_dim2_deg_resp on both curves: a response matrix that is not invertible modulo 2
+    // (zero, even, rank-deficient) or an auxiliary curve without such a basis is rejected here
+    if (!test_point_order_twof(&T1.P1, &EchallxEaux.E1, pow_dim2_deg_resp) ||
+        !test_point_order_twof(&T2.P1, &EchallxEaux.E1, pow_dim2_deg_resp) ||
+        !test_point_order_twof(&T1m2.P1, &EchallxEaux.E1, pow_dim2_deg_resp) ||
+        !test_point_order_twof(&T1.P2, &EchallxEaux.E2, pow_dim2_deg_resp) ||
+        !test_point_order_twof(&T2.P2, &EchallxEaux.E2, pow_dim2_deg_resp) ||
+        !test_point_order_twof(&T1m2.P2, &EchallxEaux.E2, pow_dim2_deg_resp)) {
+        goto cleanup;
+    }
+
     // computing the isogeny
     // no points above the twotorsion
     int extra_info = 0;
-    theta_chain_comput_strategy_faster_no_eval(
+    int chain_ok = theta_chain_comput_strategy_faster_no_eval(
         &isog,
         pow_dim2_deg_resp,
         &EchallxEaux,
@@ -957,6 +973,10 @@ protocols_verif(signature_t *sig, const public_key_t *pk, const unsigned char *m
         &T1m2,
         strategies[TORSION_PLUS_EVEN_POWER - pow_dim2_deg_resp + 2],
         extra_info);
+    // a chain whose codomain does not split as a product of elliptic curves is rejected
+    if (!chain_ok) {
+        goto cleanup;
+    }
 
     // TOC_clock(t,"response isogeny");
 
@@ -1017,6 +1037,7 @@ protocols_verif(signature_t *sig, const public_key_t *pk, const unsigned char *m
         }
     }
 
+cleanup:
     ibz_finalize(&remain);
     ibz_finalize(&tmp);
     ibz_finalize(&tmp2);
